@@ -126,7 +126,7 @@ static std::vector<Hist> histories(){
         // ---- local polynomial: refinement strategies (refsurp:tol,criteria,output,scale,limits,overload), construction, sparse/dense basis, removal
         struct LP { const char *rule; int order; int tier; }; const LP lps[] = { {"localp",1,0}, {"localp",2,1}, {"localp",0,0}, {"localp",3,1}, {"semi-localp",2,0}, {"localp-boundary",1,0}, {"localp-boundary",2,1}, {"localp-zero",1,1}, {"localp-zero",2,0}, {"semi-localp",3,1}, {"localp",-1,1} };
         for(auto &lp : lps){
-            std::string cfg = std::string("fam=localp;rule=") + lp.rule + dd + ";depth=" + ((d == 2 && lp.order != 0) ? "3" : "2") + ";type=level;order=" + std::to_string(lp.order);
+            std::string cfg = std::string("fam=localp;rule=") + lp.rule + dd + ";depth=" + (lp.order == 0 ? "1" : (d == 2 ? "3" : (std::string(lp.rule) == "localp-zero" ? "1" : "2"))) + ";type=level;order=" + std::to_string(lp.order);
             std::string nm = std::string("localp:") + lp.rule + ":o" + std::to_string(lp.order) + ":" + D + "d";
             int t3 = (d == 3) ? std::max(lp.tier, (lp.order == 1 || std::string(lp.rule) == "semi-localp") ? 0 : 1) : lp.tier;
             addh(t3, nm + ":refine", cfg, "load:3 @batch:40 refsurp:1,0,-1 load:3 refsurp:1,3,-1 load:3 refsurp:1,4,0 load:3 refsurp:1,1,-1 load:3 refsurp:1,2,1 load:3 @hsparse:70 @hsparsestatic:33 @hdense:20 @quad @interp @integrate @diff @diffw @inth");
@@ -150,19 +150,19 @@ static std::vector<Hist> histories(){
         for(auto &sq : sqs){
             std::string cfg = std::string("fam=sequence;rule=") + sq.rule + dd + ";depth=" + (d == 2 ? "4" : "3") + ";type=iptotal";
             std::string nm = std::string("sequence:") + sq.rule + ":" + D + "d";
-            addh(sq.tier, nm + ":refine", cfg, "load:0 @batch:40 @aniso:1,0 @aniso:2,-1 refaniso:1,3,0 load:0 refaniso:2,1,-1 load:0 refsurpgs:1,0 load:0 refsurpgs:3,0,-1 update:5,0 load:0 update:" + std::string(d == 2 ? "4" : "2") + ",2,0,2 update:5,3,0,1 load:0" + OBS + " @inth @polyspace:1 @polyspace:0");
+            addh(sq.tier, nm + ":refine", cfg, "load:0 @batch:40 @aniso:1,0 @aniso:2,-1 refaniso:1,3,0 load:0 refaniso:2,1,-1 load:0 refsurpgs:1,0 load:0 refsurpgs:3,0,-1 update:5,0 load:0 update:0,2,0,2 update:5,3,0,1 load:0" + OBS + " @inth @polyspace:1 @polyspace:0");
             addh(std::max(sq.tier, d == 3 ? 1 : 0), nm + ":construct", cfg, "load:0 begin cand:0,1 deliver:4,0 cand:0,1,1 deliver:3,1,1 deliver:0,0,0,1 finish @batch:40 merge @copy @hdense:10");
         }
         // ---- global grids: nested, non-nested, greedy sequences (node optimiser), curved weights with negative sum (non-lower selection)
         struct GL { const char *rule, *type; int depth2, depth3; const char *aw2, *aw3; int tier; }; const GL gls[] = {
             {"clenshaw-curtis", "iptotal", 3, 2, "", "", 0}, {"gauss-legendre", "qptotal", 3, 2, "", "", 0}, {"leja", "level", 5, 4, "", "", 0}, {"fejer2", "iphyperbolic", 3, 2, "1,2", "1,2,1", 1},
-            {"gauss-patterson", "qpcurved", 3, 2, "1,1,-2,-2", "1,1,1,-2,-2,-2", 0}, {"rleja-odd", "ipcurved", 4, 3, "2,1,1,0", "2,1,1,1,0,1", 1}, {"chebyshev", "tensor", 2, 2, "2,3", "1,2,2", 1},
-            {"max-lebesgue", "iptotal", 5, 4, "", "", 1}, {"clenshaw-curtis-zero", "curved", 4, 3, "1,1,-2,-2", "1,1,1,-2,-2,-2", 1}, {"gauss-hermite", "level", 2, 2, "", "", 1}, {"leja-odd", "iptotal", 4, 3, "", "", 1} };
+            {"gauss-patterson", "qpcurved", 3, 2, "1,2,1,0", "1,2,1,1,0,1", 0}, {"rleja-odd", "ipcurved", 4, 3, "2,1,1,0", "2,1,1,1,0,1", 1}, {"chebyshev", "tensor", 2, 2, "2,3", "1,2,2", 1},
+            {"max-lebesgue", "iptotal", 5, 4, "", "", 1}, {"clenshaw-curtis-zero", "curved", 3, 2, "2,1,0,1", "2,1,1,0,1,1", 1}, {"gauss-hermite", "level", 2, 2, "", "", 1}, {"leja-odd", "iptotal", 4, 3, "", "", 1} };
         for(auto &gl : gls){
             std::string aw = (d == 2) ? gl.aw2 : gl.aw3; int depth = (d == 2) ? gl.depth2 : gl.depth3;
             std::string cfg = std::string("fam=global;rule=") + gl.rule + dd + ";depth=" + std::to_string(depth) + ";type=" + gl.type + (aw.empty() ? "" : ";aw=" + aw);
             std::string nm = std::string("global:") + gl.rule + ":" + gl.type + ":" + D + "d";
-            addh(std::max(gl.tier, (d == 3 && std::string(gl.rule) != "clenshaw-curtis") ? 1 : 0), nm + ":refine", cfg, "load:0 @batch:40 @aniso:1,0 refaniso:1,3,0 load:0 refsurpgs:1,0 load:0 update:" + std::to_string(depth + 1) + ",0 load:0 update:" + std::to_string(d == 2 ? depth + 1 : 2) + ",2,0,2 update:" + std::to_string(depth + 1) + ",3,0,1 load:0" + OBS + " @diffw @polyspace:1 @polyspace:0");
+            addh(std::max(gl.tier, (d == 3 && std::string(gl.rule) != "clenshaw-curtis") ? 1 : 0), nm + ":refine", cfg, "load:0 @batch:40 @aniso:1,0 refaniso:1,3,0 load:0 refsurpgs:1,0 load:0 update:" + std::to_string(depth + 1) + ",0 load:0 update:0,2,0,2 update:" + std::to_string(depth + 1) + ",3,0,1 load:0" + OBS + " @diffw @polyspace:1 @polyspace:0");
             addh(std::max(gl.tier, d == 3 ? 1 : 0), nm + ":construct", cfg, "load:0 begin cand:0,1 deliver:4,0 cand:0,1,1 deliver:3,1,1 deliver:0,0,0,1 finish @batch:40 merge @copy @quad");
         }
         addh(d == 2 ? 0 : 1, "global:nonlower:" + D + "d", "fam=global;rule=gauss-legendre;d=" + D + ";o=0;depth=4;type=curved;aw=" + (d == 2 ? "1,1,-2,-2" : "1,1,1,-2,-2,-2"), "@quad @interp @points @polyspace:0");
@@ -294,6 +294,7 @@ struct Spine {
     // measurements of the spine
     long execs = 0, points = 0, steps = 0, regions_explored = 0, regions_seen = 0, skipped = 0; std::set<std::string> classes; std::map<std::string, RegionAgg> agg; int nviol = 0; bool cut = false; int cur_step = 0;
     std::map<std::string,int> sanit; long spine_regions = 0;
+    struct Pending { std::string sig, cs, detail; int step; }; std::vector<Pending> pending; bool tainted = false; long not_attributed = 0, skipped_tainted = 0;
 };
 static Spine *SP = nullptr;
 
@@ -316,8 +317,11 @@ static void step_done(Spine &s, int si, Ctx &c){
         if (last || (!s.tail_history && !s.rounding && s.captured)) exec_report(s, s.rounding ? "rounding" : "same", si, s.round_detail);
         return;
     }
-    s.cur_step = si + 1;
-    if (v == "struct" || v == "numeric"){
+    s.cur_step = si + 1; bool bad = (v == "struct" || v == "numeric");
+    for(auto &p : s.pending){ if (bad && p.step <= si){ s.not_attributed++; continue; } if (s.nviol++ < 20) vf::violation(p.sig, s.unit, p.cs, p.detail); }
+    s.pending.clear();
+    if (bad && !s.tainted){
+        s.tainted = true; // every later observation differs as a consequence: exploration of the remaining regions and later steps would only repeat this finding
         if (s.nviol++ < 20) vf::violation("C13:" + kind_of(v) + ":" + s.h->fam() + ":" + step_name(*s.h, si) + ":default-schedule", s.unit, case_json(s, -1, std::vector<int>(), ""), "team of " + std::to_string(s.T) + ", default schedule, after step " + std::to_string(si) + " (" + step_name(*s.h, si) + "): " + detail);
     }else if (v == "rounding") s.agg["(default schedule)"].verdicts["rounding"]++;
 }
@@ -355,7 +359,10 @@ static void record_exec(Spine &s, long r, const std::string &fn, const ExecRes &
         // a failing schedule is executed again: identical observations are required before it is reported
         ExecRes y = exec_child(s, r, choices, false, false); s.execs++;
         if (y.status != x.status || y.verdict != x.verdict || y.detail != x.detail || y.tracedig != x.tracedig){ vf::emit(vf::J().s("t","error").s("what","re-execution of the same schedule gives different observations: " + s.unit + " region " + std::to_string(r) + " choices " + vf::jarr(choices))); return; }
-        viol("C13:" + kind_of(x.verdict) + ":" + s.h->fam() + ":" + fn, "history " + s.h->name + ", team of " + std::to_string(s.T) + ", region " + std::to_string(r) + " (" + fn + "), schedule " + vf::jarr(choices) + " [" + x.tracehead.substr(0, 120) + "]: " + x.detail);
+        // held back until the spine has finished the step: if the default schedule itself differs from the serial build there, the difference is not attributable to this region
+        Spine::Pending p; p.sig = "C13:" + kind_of(x.verdict) + ":" + s.h->fam() + ":" + fn; p.cs = cs; p.step = x.step;
+        p.detail = "history " + s.h->name + ", team of " + std::to_string(s.T) + ", region " + std::to_string(r) + " (" + fn + "), schedule " + vf::jarr(choices) + " [" + x.tracehead.substr(0, 120) + "]: " + x.detail;
+        if (s.replay) viol(p.sig, p.detail); else s.pending.push_back(p);
     }
 }
 static void explore_region(Spine &s, long r, const std::string &fn, const std::vector<int> &prefix, int used, bool root){
@@ -388,6 +395,7 @@ static void region_begin(long r, void *fnp){
         }
         if (r < s.r0 || r >= s.r1) return;
         s.regions_seen++;
+        if (s.tainted){ s.skipped_tainted++; return; }
         if (vf::past_deadline()){ s.cut = true; return; }
         explore_region(s, r, fn, std::vector<int>(), 0, true); if (!s.cut) s.regions_explored++;
     }catch(int){ /* exec child: continue into the region */ }
@@ -406,11 +414,12 @@ static void run_spine(Spine &s){
         SP = &s; vs::outfd = fd; vs::max_steps = 400000; vs::begin_main(); gs::team_size = s.T; gs::fine_points = s.fine; gs::on_region_begin = region_begin; gs::on_region_end = region_end;
         run_history(*s.h, [&](int si, Ctx &c){ step_done(s, si, c); });
         vs::end_main();
+        for(auto &p : s.pending) if (s.nviol++ < 20) vf::violation(p.sig, s.unit, p.cs, p.detail);
         for(auto &a : s.agg){ std::string vd; for(auto &v : a.second.verdicts){ if (!vd.empty()) vd += ","; vd += v.first + ":" + std::to_string(v.second); }
             vf::emit(vf::J().s("t","outcome").s("key", s.h->name + " T=" + std::to_string(s.T) + " | " + a.first + " | " + std::to_string(a.second.traces.size()) + " distinct chunk/critical/thread-order traces | verdicts " + (vd.empty() ? "-" : vd)).i("n", a.second.execs)); }
         bool complete = !s.cut && !vf::past_deadline();
         vf::emit(vf::J().s("t","unit").s("unit", s.unit).i("states", s.points).i("transitions", s.steps).i("execs", s.execs + 1).i("evals", s.execs + 1).i("distinct", (long long) s.classes.size())
-                 .i("regions_in_history", s.spine_regions).i("regions_explored", s.regions_explored).i("regions_in_range", s.regions_seen).i("skipped_after_crashes", s.skipped).i("nested_regions", gs::n_nested).i("criticals", gs::n_crit).i("dynamic_loops", gs::n_dynloops).i("chunks", gs::n_chunks).i("barriers", gs::n_barriers).i("violations", s.nviol).n("wall_s", std::round(1e3 * (vf::now() - t_start)) / 1e3).b("complete", complete));
+                 .i("regions_in_history", s.spine_regions).i("regions_explored", s.regions_explored).i("regions_in_range", s.regions_seen).i("skipped_after_crashes", s.skipped).i("regions_skipped_after_default_schedule_violation", s.skipped_tainted).i("differences_not_attributed", s.not_attributed).i("nested_regions", gs::n_nested).i("criticals", gs::n_crit).i("dynamic_loops", gs::n_dynloops).i("chunks", gs::n_chunks).i("barriers", gs::n_barriers).i("violations", s.nviol).n("wall_s", std::round(1e3 * (vf::now() - t_start)) / 1e3).b("complete", complete));
         vf::wr(fd, "SPINE-OK\n"); _exit(0);
     }
     if (o.out.find("SPINE-OK") == std::string::npos){
